@@ -336,3 +336,7 @@ unsafe impl<const MAX_STREAMS:  usize>
 Sync for
 StreamsManagerBase<MAX_STREAMS> {}
 
+
+/// verification hook (compiled only under `cargo kani` or `--cfg reactive_mutiny_verif`): harnesses live outside this repository
+#[cfg(any(kani, reactive_mutiny_verif))]
+pub(crate) mod verif_hooks { include!(concat!(env!("REACTIVE_MUTINY_VERIF_DIR"), "/kani/streams_manager.rs")); }
